@@ -6,7 +6,8 @@
  *        map    (narrow + mapping-engine events)   flow (documented Darwin frame flow, driver B)
  * --b selects the clock origin (0: 1000000 ms; 1: 3000000 ms, same sub-second phase, must give the
  * same graph; 2: 3000500 ms, another phase of the millisecond/second clocks; 3: 4294965000 ms, same phase as 0,
- * the millisecond clock passes 2^32 within the first seconds of every history - must give the same graph). */
+ * the millisecond clock passes 2^32 within the first seconds of every history - must give the same graph; 4: 0 ms, the
+ * clock has just started - must give the same graph). */
 #include "../mc/darwin.h"
 
 #include <stdlib.h>
@@ -261,7 +262,7 @@ static void root_setup(void) {
 int main(int argc, char **argv) {
     vf_parse_args(argc, argv, "C12");
     vf_world_init(1500, 0, (uint8_t)A.fill);
-    extern uint64_t vf_clock_origin; vf_clock_origin = A.b == 1 ? 3000000ull : A.b == 2 ? 3000500ull : A.b == 3 ? 4294965000ull /* 2296 ms before the millisecond clock passes 2^32 (49.7 days of uptime) */ : 1000000ull;
+    extern uint64_t vf_clock_origin; vf_clock_origin = A.b == 4 ? 0ull /* the clock has just started: every deadline and time-stamp sentinel (0 = not armed) is at its edge */ : A.b == 1 ? 3000000ull : A.b == 2 ? 3000500ull : A.b == 3 ? 4294965000ull /* 2296 ms before the millisecond clock passes 2^32 (49.7 days of uptime) */ : 1000000ull;
     build_alphabet(A.mode);
     e1_cfg cfg = { .nev = NEV, .ev_name = ev_name, .apply = apply, .root_setup = root_setup,
                    .state_size = sizeof(cstate), .save = save, .restore = restore,
